@@ -43,7 +43,7 @@ func init() {
 	fw.Register(&fw.Property{
 		ID:    "C08",
 		Level: "exploration",
-		Rule: "cases = PRNG multi-writer event-log histories (2-4 writers, forks and merges) with random merge sequences; at every checkpoint on every replica: earlier listing is a subsequence of the later one, entries follow everything their writer had seen, writers' entries keep write order; at selected checkpoints all window queries are ENUMERATED: bound kind {none,gt,gte,lt,lte} x bound = every entry x amount {unset,0,1,2,len-1,len,len+3,-1,-7} via List and Stream, and Get(h) for every h. " +
+		Rule: "cases = PRNG multi-writer event-log histories (2-4 writers, forks and merges) with random merge sequences and snapshot save / load-into-the-live-store steps; at every checkpoint on every replica: earlier listing is a subsequence of the later one, entries follow everything their writer had seen, writers' entries keep write order; at selected checkpoints all window queries are ENUMERATED: bound kind {none,gt,gte,lt,lte} x bound = every entry x amount {unset,0,1,2,len-1,len,len+3,-1,-7} via List and Stream, and Get(h) for every h. " +
 			"distinct = hash(step script); non-trivial = >= 2 writers and >= 4 entries and >= 50 window queries judged",
 		Assumptions: []string{"bounds are entries of the log (hashes outside the log are excluded by the property)", "two bounds at once are exercised but not judged"},
 		Cases:       func(tier string, seed int64) []fw.Case { return lwwCases(tier, seed, tEvent, 40, 300) },
@@ -164,6 +164,7 @@ func lwwRun(c fw.Case, typ string) fw.Verdict {
 	case tEvent:
 		wq = &windowStats{}
 		r.Cfg.CheckEvery = 2
+		r.Cfg.WSnapshot = 6
 		r.Checks = []func(*Runner, []*Snap, string) *Violation{oracleModel, oracleAppendOnly, oracleWriterOrder, wq.oracle, oracleSameSet}
 	}
 	if err := r.Setup(); err != nil {
